@@ -23,6 +23,9 @@ JS = [
 ]
 
 
+HUNG = set()
+
+
 def clog2(n):
     return 0 if n <= 1 else (n - 1).bit_length()
 
@@ -47,7 +50,7 @@ def one(ctx, name, cfg, kind, f, decider, do_model=True, label="", cut=None):
         tc.filename = str(p)
     if n == 0:
         return None
-    run = strat.run_real(name, cfg, tc, decider, max_tests=bound + 2)
+    run = strat.run_real(name, cfg, tc, decider, max_tests=bound + 2, watchdog=10.0)
     case = dict(strategy=name, cfg={k: v for k, v in cfg.items()}, splitter=kind, parts=common.enc_list(f[1]),
                 reducible=common.enc_bools(f[2]), verdicts="".join("1" if v else "0" for v in run.verdicts[:200]), label=label)
     if do_model and name in strat.MODELLED:
